@@ -26,17 +26,11 @@ if len(sys.argv) > 4 and sys.argv[4] == "opt":
             "second use of the same object, or a state that only files from other producers contain. Avoid the sites the property's anchors name "
             "first; earlier rounds covered them.")
 if len(sys.argv) > 4 and sys.argv[4] == "fresh":
-    import glob, re
-    touched = {}
-    for d in glob.glob(f"/verif/seeded/{pid}-*/patch.diff"):
-        for m in re.finditer(r"^\+\+\+ b/(\S+)\n@@ [^@]*@@ ?(.*)$", open(d).read(), re.M):
-            touched.setdefault(m.group(1), set()).add(m.group(2).strip()[:60])
-    sites = "; ".join(f"{f} ({', '.join(sorted(x for x in v if x)[:6])})" for f, v in sorted(touched.items()))
-    hint = (" Earlier rounds of this exercise already changed the following sites for this property, so changes there are of no further "
-            "interest - choose OTHER functions (other files where possible): " + sites + ". Look for code the property depends on that "
-            "none of these touch: less common object kinds and entry points, helper modules, the reading side as well as the writing side, "
-            "behaviour on files written by other producers, second and later uses of an object, and numeric / length boundaries. Keep the "
-            "change realistic (an optimisation, a tidy-up, a robustness fallback, a modernisation) and subtle.")
+    hint = (" Choose sites in files the property's anchors do NOT list: code the property depends on indirectly - less common object kinds "
+            "and entry points, helper modules (util, shared, xmlchemy, simpletypes, ns, spec tables), the READING side as well as the writing "
+            "side, behaviour on files written by other producers, second and later uses of an object, and numeric / length boundaries. Keep the "
+            "change realistic (an optimisation, a tidy-up, a robustness fallback, a modernisation) and subtle: correct for what the library's own "
+            "writer produces in ordinary use.")
 for l in open('/verif/properties.jsonl'):
     p = json.loads(l)
     if p['id'] == pid:
